@@ -31,6 +31,7 @@ type Request struct {
 	Packages []string `json:"packages,omitempty"` // C15: image packages
 	HistSeed uint64   `json:"hist_seed"`
 	Dynamic  bool     `json:"dynamic,omitempty"` // C18 sub-stream: link with dynamic extension values
+	SetOnly  bool     `json:"set_only,omitempty"`
 	Skip     []string `json:"skip,omitempty"`
 	Dead     []string `json:"dead,omitempty"` // steps during which an earlier child died
 }
